@@ -172,6 +172,21 @@ Print Assumptions C07_table_leading_asis_refuted.
 Theorem C07_leading_fact : LEADING_MULTIPLIED = false.
 Proof. reflexivity. Qed.
 
+(* The options a cell is rendered under are its column's (justify, overflow, no_wrap), whatever the
+   table itself inherits (console.print(table, no_wrap=True), soft_wrap, options.update(...)): Table
+   passes all three to ConsoleOptions.update, and update keeps only on None.  Tied to /repo by the T3
+   fact UPDATE_NONE_KEEPS (every field of ConsoleOptions.update is guarded by `is not None`); with a
+   truthiness test an inherited no_wrap could not be switched off and fold columns would be cut. *)
+Theorem C07_cell_options_override : forall inh j ov nw,
+  cell_copts UPDATE_NONE_KEEPS inh j ov nw = mkCopts j ov nw.
+Proof. intros inh j ov nw. unfold cell_copts, co_update. destruct nw; reflexivity. Qed.
+Print Assumptions C07_cell_options_override.
+
+Theorem C07_cell_options_truthiness_refuted : exists inh j ov nw,
+  cell_copts false inh j ov nw <> mkCopts j ov nw.
+Proof. exists (mkCopts 0 0 true), 0, 0, false. discriminate. Qed.
+Print Assumptions C07_cell_options_truthiness_refuted.
+
 (* Rows appear in insertion order between the borders, each on lines of its own; what separates
    them are box rows built from the same widths. *)
 Theorem C07_rows_in_order : forall lm o b widths rows lines,
